@@ -12,12 +12,14 @@ Empty == <<"empty">>
 
 \* what the board enqueues when request number n is written. An item is a line token
 \* preceded by e empty reads (timeouts). d1/d2: delay before the first/second line.
-Enq(kind, n, d1, d2, fault) ==
+\* blank: the data line of a query is only a line ending (e.g. QT on a board without a nickname): still a line, still this request's data
+DataTok(n, blank) == IF blank THEN <<"blank", n>> ELSE <<"data", n>>
+Enq(kind, n, d1, d2, fault, blank) ==
   IF fault \in {"silent", "wraise"} THEN <<>>
   ELSE IF fault = "errline" THEN << [e |-> d1, tok |-> <<"err", n>>] >>
   ELSE IF kind = "cmd" THEN << [e |-> d1, tok |-> <<"ok", n>>] >>
-  ELSE IF kind = "qnook" THEN << [e |-> d1, tok |-> <<"data", n>>] >>
-  ELSE << [e |-> d1, tok |-> <<"data", n>>], [e |-> d2, tok |-> <<"ok", n>>] >>
+  ELSE IF kind = "qnook" THEN << [e |-> d1, tok |-> DataTok(n, blank)] >>
+  ELSE << [e |-> d1, tok |-> DataTok(n, blank)], [e |-> d2, tok |-> <<"ok", n>>] >>
 
 \* one readline(): <<token returned, queue afterwards>>
 ReadQ(q) == IF q = <<>> THEN <<Empty, q>>
